@@ -52,7 +52,7 @@ pub fn cfg_for(profile: &str, thorough: bool) -> GenCfg {
         "C08" => GenCfg { profile: "C08", resize: true, ..base },
         "C09" => GenCfg { profile: "C09", resize: true, close: true, ..base },
         "C10" => GenCfg { profile: "C10", no_runtime_calls: true, resize: true, ..base },
-        "C11" => GenCfg { profile: "C11", close: true, ..base },
+        "C11" => GenCfg { profile: "C11", close: true, resize: true, ..base },
         "C13" => GenCfg { profile: "C13", ..base },
         _ => panic!("unknown managed profile {profile}"),
     }
